@@ -94,7 +94,8 @@ fn run_generate(
     let mut config = if let Some(config_path) = config_file {
         // Explicit config file specified
         if config_path.exists() {
-            GenerateConfig::from_file(config_path)?
+            // Validated below, once the command-line flags have been applied
+            GenerateConfig::parse_file(config_path)?
         } else {
             return Err(format!("Configuration file not found: {}", config_path.display()).into());
         }
@@ -111,7 +112,9 @@ fn run_generate(
 
         for path in possible_paths {
             if path.exists() {
-                match GenerateConfig::from_tauri_config(&path) {
+                // Validated below, once the command-line flags have been applied: invalid
+                // settings in the file must be reported, not silently replaced by defaults
+                match GenerateConfig::parse_tauri_config(&path) {
                     Ok(Some(loaded_config)) => {
                         config = loaded_config;
                         config_loaded = true;
